@@ -33,6 +33,7 @@ import (
 
 	"github.com/codenotary/immudb/embedded/appendable"
 	"github.com/codenotary/immudb/embedded/appendable/fileutils"
+	"github.com/codenotary/immudb/embedded/verifhook"
 )
 
 var ErrorPathIsNotADirectory = errors.New("singleapp: path is not a directory")
@@ -113,6 +114,9 @@ func Open(fileName string, opts *Options) (*AppendableFile, error) {
 	if err != nil {
 		return nil, err
 	}
+	if notExist {
+		verifhook.FSCreate(fileName)
+	}
 
 	var metadata []byte
 	var compressionFormat int
@@ -160,11 +164,17 @@ func Open(fileName string, opts *Options) (*AppendableFile, error) {
 		if err != nil {
 			return nil, err
 		}
+		verifhook.FSWrite(fileName, 0, mLenBs)
+		verifhook.FSWrite(fileName, 4, mBs)
+		if verifhook.Enabled && opts.preallocSize > 0 {
+			verifhook.FSWrite(fileName, int64(4+len(mBs)), make([]byte, opts.preallocSize))
+		}
 
 		err = f.Sync()
 		if err != nil {
 			return nil, err
 		}
+		verifhook.FSSync(fileName)
 
 		err = fileutils.SyncDir(filepath.Dir(fileName))
 		if err != nil {
@@ -648,7 +658,12 @@ func (aof *AppendableFile) flush() error {
 		return err
 	}
 
+	if ferr := verifhook.Fault("singleapp.write"); ferr != nil {
+		return ferr
+	}
+
 	n, err := aof.f.Write(aof.writeBuffer[aof.wbufFlushedOffset:aof.wbufUnwrittenOffset])
+	verifhook.FSWrite(aof.f.Name(), aof.fileBaseOffset+aof.fileOffset, aof.writeBuffer[aof.wbufFlushedOffset:aof.wbufFlushedOffset+n])
 
 	aof.fileOffset += int64(n)
 	aof.wbufFlushedOffset += n
@@ -691,6 +706,13 @@ func (aof *AppendableFile) sync() error {
 		err = aof.f.Sync()
 	} else {
 		err = fileutils.Fdatasync(aof.f)
+	}
+	if err == nil {
+		// an injected failure is reported after the real sync; the journal then does not record it
+		err = verifhook.Fault("singleapp.sync")
+	}
+	if err == nil {
+		verifhook.FSSync(aof.f.Name())
 	}
 
 	if !aof.retryableSync {
